@@ -217,7 +217,13 @@ namespace Pistache::Rest
                 collection      = &optional_;
                 break;
             case SegmentType::Splat:
-                return splat_->removeRoute(lower_path);
+                if (splat_ == nullptr)
+                    throw std::runtime_error("Requested does not exist.");
+                // only the wildcard child goes away; this node may still have
+                // other children or a route of its own
+                if (splat_->removeRoute(lower_path))
+                    splat_ = nullptr;
+                return fixed_.empty() && param_.empty() && optional_.empty() && splat_ == nullptr && route_ == nullptr;
             }
 
             try
